@@ -276,7 +276,7 @@ func exec(kind string, in []string) []string {
 	}
 	retr, popSize, perr := pop3Fetch(env, "box")
 	if perr != nil {
-		status = "pop3:" + vh.HS(perr.Error())
+		status = hdr + ":pop3:" + vh.HS(perr.Error())
 	}
 	norm := bytes.ReplaceAll(src, []byte("\r\n"), []byte("\n"))
 	return []string{replies, vh.H(smtpd.MaskTimestamp(src, "box")), strconv.FormatInt(m.Size(), 10),
